@@ -132,8 +132,9 @@ def reread_rule(rep, prog):
     return run_, oks
 
 
-def schedule_rule(rep, prog, oks, schedules):
-    rid = rep.rule("R2b", "under scripted read schedules (one byte per call; a transient Interrupted error before every successful call) every grammar path yields the same frame and checksum as slice decoding")
+def schedule_rule(rep, prog, oks, schedules, rule="R2b", crc_only=False,
+                  text="under scripted read schedules (one byte per call; a transient Interrupted error before every successful call) every grammar path yields the same frame and checksum as slice decoding"):
+    rid = rep.rule(rule, text)
     fn = prog.fns.get(FROM_READER)
     from ..ai.pathcond import PathCond
     from ..ref import crc as refcrc
@@ -155,6 +156,8 @@ def schedule_rule(rep, prog, oks, schedules):
                     dev.append(j)
         else:
             dev = ["inexact"]
+        if crc_only:
+            return (tuple(dev),)
         return (tuple(dev), tuple((".".join(l.path), tuple(sorted(l.atoms))) for l in p.leaves))
     base = {}
     for p in oks:
@@ -181,11 +184,11 @@ def schedule_rule(rep, prog, oks, schedules):
         if set(got) != set(base):
             miss = sorted(set(base) - set(got))[:3]
             extra = sorted(set(got) - set(base))[:3]
-            rep.violation("R2b", "schedule:%s:paths" % name, "under schedule '%s' the set of accepted grammar paths differs (missing %s, extra %s)" % (name, miss, extra))
+            rep.violation(rule, "schedule:%s:paths" % name, "under schedule '%s' the set of accepted grammar paths differs (missing %s, extra %s)" % (name, miss, extra))
             continue
         bad = [l for l in base if base[l] != got[l]]
         for l in sorted(bad)[:1]:
-            rep.violation("R2b", "schedule:%s:result" % name, "under schedule '%s' %d grammar path(s) decode differently from the slice (e.g. %s: checksum or fields differ)" % (name, len(bad), l))
+            rep.violation(rule, "schedule:%s:result" % name, "under schedule '%s' %d grammar path(s) decode differently from the slice (e.g. %s: checksum or fields differ)" % (name, len(bad), l))
         for l in base:
             rep.rules[rid]["instances"] += 1
             rep.rules[rid]["nontrivial"].add("%s|%s" % (name, l))
